@@ -177,7 +177,7 @@ fn gen_text(r: &mut Rng, uid: bool) -> String {
 
 fn small_int(r: &mut Rng) -> i64 {
     // boundary values of the 16- and 32-bit kinds (every `as` cast of extend_* is exercised at its wrap point)
-    if r.chance(1, 4) {
+    if r.chance(1, 2) {
         return *r.pick(&[0x7FFF, 0x8000, 0xFFFF, 0x10000, 0x7FFF_FFFF, 0x8000_0000, 0xFFFF_FFFF, -0x8000_0000i64, -0x8001, 3_000_000_000]);
     }
     match r.below(10) {
@@ -364,8 +364,12 @@ fn main() {
             let cur_bytes = matches!(cur.map(|e| e.value()), Some(Value::Primitive(PrimitiveValue::U8(v))) if !v.is_empty());
             // the class values must have: that of the element's VR when it exists, else of the dictionary VR
             let c = if cur.is_some() { cur_class.unwrap_or(c) } else { c };
+            // an existing non-empty numeric value is extended half of the time (every `as` cast of extend_*)
+            let numeric_target = cur_prim_nonempty
+                && matches!(cur_class, Some(Class::U16) | Some(Class::I16) | Some(Class::U32) | Some(Class::I32) | Some(Class::I64) | Some(Class::U64) | Some(Class::F32) | Some(Class::F64));
             let (action, ad) = loop {
-                match r.below(20) {
+                let roll = if numeric_target && r.chance(1, 2) { 14 } else { r.below(20) };
+                match roll {
                     0 => break (AttributeAction::Remove, "remove".to_string()),
                     1 => break (AttributeAction::Empty, "empty".into()),
                     2 | 3 => {
